@@ -180,6 +180,19 @@ def corpus_problems():
     p.add_state_invariant(safe(dock))
     p.add_goal(em.Equals(dock, o2))
     out.append(HandProblem(p, "invariant-through-nested-fluent"))
+    # 7b. an assignment forall effect whose value reads an undefined instance and is simplified to a constant when
+    #     grounded (the quantified variable vanishes with it): forall v: f := (b(v) implies b(v)), b(o2) undefined
+    env, tm, T, p, o1, o2 = base("forall-assignment-undefined-read-simplified")
+    bq = Fluent("bq", tm.BoolType(), x=T, environment=env)
+    fz = Fluent("fz", tm.BoolType(), environment=env)
+    p.add_fluent(bq); p.add_fluent(fz, default_initial_value=False)
+    p.set_initial_value(bq(o1), True)
+    em = env.expression_manager
+    v = Variable("v", T, env)
+    a = InstantaneousAction("a", _env=env)
+    a.add_effect(fz, em.Implies(bq(v), bq(v)), forall=(v,))
+    p.add_action(a); p.add_goal(fz)
+    out.append(HandProblem(p, "forall-assignment-undefined-read-simplified"))
     # 8. long chains of states: the 21st consecutive successor collapses UPState's ancestor chain; it resets a fluent to
     #    its default value, which an older ancestor had changed
     env, tm, T, p, o1, o2 = base("long-chain-default-reset")
